@@ -694,10 +694,10 @@ def r14_1_dispatchers(ctx, rule: str = 'R14.1') -> List[Ob]:
                 detail = f"kernels reached: bi {sorted(s2)}, multi {sorted(sm)}"
             if a2 == [f"{va}[0]", f"{va}[1]"] and k2 and same_family:
                 obs.append(ok(rule, t, f.loc(c2), construct=f"{_fn(f)}::bi", detail=detail))
-            elif a2 == [f"{va}[0]", f"{va}[1]"] and k2 and tg2 and tgm and not s2 and not sm:
-                # no backend routine is reached from either arm: the backend selection of these functions is not resolved
+            elif a2 == [f"{va}[0]", f"{va}[1]"] and k2 and tg2 and tgm and (not s2 or not sm):
+                # no backend routine is reached from one of the arms: the backend selection of these functions is not resolved
                 # (no `from .cython.x import y` dispatch site), so which measure they compute cannot be compared
-                obs.append(inconclusive(rule, t, f.loc(c2), f"no dispatch site reached from `{g2}` or `{g1}`: backend selection not resolved",
+                obs.append(inconclusive(rule, t, f.loc(c2), f"no dispatch site reached from `{g2 if not s2 else g1}`: backend selection not resolved",
                                         construct=f"{_fn(f)}::bi"))
             else:
                 obs.append(violation(rule, t, f.loc(c2), key=f"{_fn(f)}::bi-arm",
@@ -718,6 +718,8 @@ def _reachable_sites(wm: WrapperModel, f: FuncInfo, depth: int = 0, seen: Option
             for t, _ in wm.callees(f, n):
                 out |= _reachable_sites(wm, t, depth + 1, seen)
             for a in list(n.args) + [k.value for k in n.keywords]:
+                if isinstance(a, ast.Call) and a.args and ast.unparse(a.func).split('.')[-1] == 'partial':
+                    a = a.args[0]           # the partial application written in place
                 if isinstance(a, ast.Name):
                     if a.id in wm.partials.get(f.qual, {}):
                         out |= _reachable_sites(wm, wm.partials[f.qual][a.id][0], depth + 1, seen)
